@@ -20,7 +20,19 @@ PROPS["C13"] = {
     "partial": "",
 }
 
+PROPS["C20"] = {
+    "gen": ["Collection"],
+    "trusted_base": ["astropy.io.fits / astropy.wcs (HDU lists, alternate WCS keys) are exercised, not modelled"],
+    "assumptions": COMMON_ASSUME + ["--hdu-index / --wcs-key strings are canonical decimal integers / single letters (python's int() also accepts whitespace, '+', '_')"],
+    "partial": "",
+}
+
 LEVEL_TEXT = {
+    "C20": {
+        "text": "The selection branches of SimpleFitsCollection._scan_hdus (scalar / per-file list / guess; WCS key scalar / list / default) are re-extracted from collection.py as typed Lean definitions on every run; theorems: a scalar applies to every file, a list is applied pointwise to both the reported index and the HDU read, reported = read in every branch, the guess takes the first HDU with >=2-D non-table data, short lists are errors; structural facts: descriptions/images/export_simple share one scan. The assembled model is run against collection.load / create_from_args / tile_fits on generated multi-extension collections.",
+        "note": "trusted: Lean kernel; the extractor for this fragment (AST pattern + typed expression translation: a list used where an index is needed makes the generated definition ill-typed, which is reported as a broken obligation); astropy.",
+        "technique": "Lean 4 proof over source-extracted selection branches + differential execution",
+    },
     "C13": {
         "text": "Kernel-checked theorems for every depth and position: parent/child/slot inverses, is_subtile = shift relation = iterated parent (incl. its ValueError case), generate_pos is duplicate-free, yields exactly the in-scope positions, every position after its four children, and has the code's closed-form counts (depth2tiles / tiles_at_depth, incl. depth2tiles(-1)=0). pos_parent / pos_children / slot and bit formulas are re-extracted from pyramid.py each run and bridged to the model by lemmas. The executable model of the generators and of PyramidReductionIterator is run against the real classes (yield sequence incl. child data, results, visits) on every accept-set of depth 1 and random hierarchical accept-sets x apexes.",
         "note": "trusted: Lean kernel; py2lean; the harness. A filter is modelled as a function of the position. Statements about filtered counters rest on red_refines_fold (Props/C01) where proved, and on the model/implementation correspondence otherwise.",
